@@ -1,5 +1,7 @@
 import AsyncsshModel.Lemmas.ChannelReach
 import AsyncsshModel.Lemmas.ChannelAcct
+import AsyncsshModel.Lemmas.ChannelDecode
+import AsyncsshModel.Lemmas.ChannelVariants
 import AsyncsshModel.Gen.C08
 /-
   C08 — Flow control is honoured both ways and never deadlocks.
@@ -15,6 +17,17 @@ import AsyncsshModel.Gen.C08
   old functions (`flushDataOld` / `stepOld`):
     * F2  `sender_spins_zero_pktsize_old`   — a peer advertising maximum packet size 0 made `_flush_send_buf` spin
     * F3  `receiver_window_exceeded_while_paused_old` — while reading was paused the advertised window was not enforced
+
+  Three more (audit findings D2, D3, D4; repairs b98700f, 9fcdbb2, 6aa4f78), outside the byte-level endpoint the
+  theorems above are about — in `SSHServerChannel`, in the text layer and in `SSHTunTapChannel`
+  (`Model/ChannelVariants.lean`, `Model/ChannelDecode.lean`); the model follows the repaired code, the behaviour
+  before the repairs is kept in the `…PreFix` definitions with witness theorems:
+    * D2  `second_session_request_ended_pause_preFix` — a second `shell` request resumed reading behind the
+          application's back (`pause_honoured_prop` is the clause it broke)
+    * D3  `honest_eof_after_close_midchar_fatal_preFix` — the honest peer's EOF after a local `close()` in the middle
+          of a character raised `ProtocolError` (`no_protocol_error_after_local_close`)
+    * D4  `tun_window_leak_preFix`, `tun_stalls_after_one_packet_preFix` — every layer-3 tunnel packet leaked 4 bytes
+          of window (`tun_receiver_accounting`)
 -/
 namespace AsyncsshModel.Channel
 open AsyncsshModel
@@ -239,6 +252,105 @@ theorem every_byte_eventually_delivered (ca cb : SideCfg) (hc : Compatible ca cb
       tag (dataOuts (s'.hist x.other).dl) = tag (s'.hist x).wr :=
   let g := good_run evs _ s (good_init ca cb hc) h
   all_data_eventually_delivered (sysPot s) s x (Nat.le_refl _) g.inv g.tinv hr hinit hp
+
+/-! ### the reader's pause is honoured (D2) -/
+
+/-- **The pause is honoured**: while the application has reading paused, no packet of any kind from the peer and
+    no application call other than `resume_reading()` (or the `_start_reading` task of a channel still starting)
+    makes the endpoint call `data_received`; and reading stays paused (unless the application closes). -/
+theorem pause_honoured_prop (c c' : Chan) (ev : Ev) (ms : List Msg) (os : List Out) (hw : WF c)
+    (hp : c.recvPaused ≠ .no) (h1 : ev ≠ .resume) (h2 : ev ≠ .startReading) (h : step c ev = .ok (c', ms, os)) :
+    dataOuts os = [] ∧ (ev ≠ .close → c'.recvPaused ≠ .no) :=
+  pause_honoured hw hp h1 h2 h
+
+/-- **Tie to the code** (repair b98700f): the only thing outside the events of the model that called
+    `resume_reading()` — a `shell` / `exec` / `subsystem` request answered with success, `_report_response` — can
+    happen once per channel: `_start_session` refuses the request once a session was started -/
+theorem second_session_request_refused :
+    Gen.C08.secondSessionRequestRefused = true ∧ Gen.C08.sessionRequestResumesReading = true := by decide
+
+/-- **D2 — witness for the code BEFORE repair b98700f**: reading paused by the application, 3 bytes buffered (the
+    peer may keep sending up to the window, then must stop: that is the back-pressure); the peer's second `shell`
+    request delivers the buffer and leaves reading resumed — from then on everything the peer sends is handed to
+    (and, with the stream API, buffered without limit by) a session that is not reading -/
+theorem second_session_request_ended_pause_preFix :
+    ∃ c', sessionRequestPreFix { Chan.opened 100 [] [1] true 100 100 .yes with recvBuf := [([1, 2, 3], none)] } =
+        .ok (c', [], [.data none [1, 2, 3]]) ∧ c'.recvPaused = .no := by
+  refine ⟨_, rfl, ?_⟩
+  decide +kernel
+
+/-! ### no protocol error out of the text layer once the application closed (D3) -/
+
+open AsyncsshModel.ChannelCodec in
+/-- **No ProtocolError after the application's `close()`** (since repair 9fcdbb2): on a text channel, whatever the
+    decoders hold when the application closes, nothing the peer sends afterwards — in particular its EOF and its
+    CLOSE, which an honest peer MUST send — raises a decode error. -/
+theorem no_protocol_error_after_local_close (tc : TChan) (hw : WF tc.c) (hr : tc.c.recvState ≠ .closed)
+    (evs : List Ev) : trunDecodeError tc (.close :: evs) = false := by
+  unfold trunDecodeError trunDecodeErrorV
+  rcases close_tstep tc hw hr with ⟨tc', ms, outs, hst, hq⟩ | ⟨e, hst⟩
+  · have hst' : tstepV .now tc .close = .ok tc' ms outs := hst
+    rw [hst']
+    exact quiet_run .now evs tc' hq
+  · exfalso
+    have hst' : tstepV .now tc .close = .error e := hst
+    unfold tstepV at hst'
+    obtain ⟨r, hr'⟩ : ∃ r, step tc.c .close = .ok r := by
+      simp only [step]
+      split
+      · rename_i hnone
+        split at hnone
+        · obtain ⟨r, hfs⟩ := flushSend_some
+            { tc.c with sendEofPending := decide (tc.c.sendState = .eofPending), sendState := .closePending }
+          rw [hfs] at hnone; cases hnone
+        · cases hnone
+      · split <;> exact ⟨_, rfl⟩
+    obtain ⟨c', ms, os⟩ := r
+    rw [hr'] at hst'
+    simp only at hst'
+    split at hst' <;> cases hst'
+
+open AsyncsshModel.ChannelCodec in
+/-- **D3 — witness for the code BEFORE repair 9fcdbb2**: "€€" cut as `E2 82 AC E2 | 82 AC`, the application closes
+    after the first packet, the honest peer sends the rest and its EOF: decode error → `ProtocolError` → the
+    connection is closed.  Now: no error. -/
+theorem honest_eof_after_close_midchar_fatal_preFix :
+    trunDecodeErrorV .preFix { c := Chan.opened 100 [1] [] true 100 100 .no, ds := [] }
+      [.recv (.data none [0xE2, 0x82, 0xAC, 0xE2]), .close, .recv (.data none [0x82, 0xAC]), .recv .eof] = true ∧
+    trunDecodeError { c := Chan.opened 100 [1] [] true 100 100 .no, ds := [] }
+      [.recv (.data none [0xE2, 0x82, 0xAC, 0xE2]), .close, .recv (.data none [0x82, 0xAC]), .recv .eof] = false := by
+  decide +kernel
+
+/-! ### layer-3 tunnel channels: the stripped address family is accounted (D4) -/
+
+/-- **Tunnel accounting** (since repair 6aa4f78): accepting a tunnel packet of `n` bytes on the wire lowers what
+    the receiver still allows the peer to send (`_recv_window - _recv_buf_len`, the quantity the window check uses)
+    by exactly `n` and raises it by the WINDOW_ADJUST sent — the sender subtracted the same `n` from its send
+    window, so the receiver replenishes the window whenever the sender's view of it falls below half. -/
+theorem tun_receiver_accounting (c : Chan) (data : Bytes) (dt : DType) (hs : c.sendState = .opn)
+    (ho : c.sendChanOpen = true) :
+    credit (tunAcceptData c data dt).1 = credit c - data.length + adjustSum (tunAcceptData c data dt).2.1 :=
+  tun_accept_accounting c data dt hs ho
+
+/-- **D4 — witness for the code BEFORE repair 6aa4f78**: 4 bytes per packet are never given back -/
+theorem tun_window_leak_preFix (c : Chan) (data : Bytes) (dt : DType) (hs : c.sendState = .opn)
+    (ho : c.sendChanOpen = true) (hl : 4 ≤ data.length) :
+    credit (tunAcceptDataPreFix c data dt).1 =
+      credit c - data.length + adjustSum (tunAcceptDataPreFix c data dt).2.1 + 4 :=
+  tun_accept_leak_preFix c data dt hs ho hl
+
+/-- the smallest stall: window 8, one packet of 4 + 4 bytes.  Before the repair the receiver is left with window 4
+    — not below half, no WINDOW_ADJUST — while the sender has used all 8 bytes: the reader reads, nothing is in
+    flight, nothing can ever be sent again.  Now the packet is answered with a WINDOW_ADJUST of 8. -/
+theorem tun_stalls_after_one_packet_preFix :
+    (∃ c', tunRecvDataPreFix (Chan.opened 8 [] [] true 100 100 .no) [0, 0, 0, 2, 1, 2, 3, 4] =
+        .ok (c', [], [.data none [1, 2, 3, 4]]) ∧ c'.recvWindow = 4) ∧
+    (∃ c', tunRecvData (Chan.opened 8 [] [] true 100 100 .no) [0, 0, 0, 2, 1, 2, 3, 4] =
+        .ok (c', [.adjust 8], [.data none [1, 2, 3, 4]]) ∧ c'.recvWindow = 8) := by
+  refine ⟨⟨_, rfl, ?_⟩, ⟨_, rfl, ?_⟩⟩ <;> decide +kernel
+
+/-- **Tie to the code**: `SSHTunTapChannel._accept_data` subtracts the stripped bytes from `_recv_window` -/
+theorem tun_header_counted_in_code : Gen.C08.tunStripsHeader = true ∧ Gen.C08.tunHeaderCounted = true := by decide
 
 /-! ### tie to the code: the generated arithmetic -/
 
